@@ -1,5 +1,6 @@
 import SqlObjVerif.Lemmas.OrmVal
 import SqlObjVerif.Lemmas.OrmValXRead
+import SqlObjVerif.Lemmas.OrmValCols
 /-!
 # C05 — cached attribute values always agree with the database row
 
@@ -326,11 +327,50 @@ theorem C05_translated_image (cfg : Cfg) (i : Iface) (s : State) (h : Hnd) (o : 
     conc o.cls o.id h (absW cfg i s o cv fail) = some s :=
   conc_absW cfg i s h o cv fail ho hrep
 
-/-- non-vacuity: in every state reachable by ANY operations the sorted pending list itself is a dict that
-    stands for it (`FlagOK.sorted`) -/
+/-- the representation invariant holds in every state reachable by ANY operations (raw SQL included): the sorted
+    pending list itself is a dict that stands for it (`FlagOK.sorted`), and the instance has cached attributes and
+    pending values only for the columns of its class (`ColsOK`, preserved by every operation: `cols_step`) -/
 theorem C05_translated_rep_reachable (cfg : Cfg) (s : State) (hs : AnyReach cfg s) (h : Hnd) (o : Inst)
-    (ho : s.objs h = some o) : Rep o.pending o.pending :=
-  rep_of_sorted o.pending ((anyReach_flag cfg s hs) h o ho).sorted
+    (ho : s.objs h = some o) : Rep o.pending o.pending ∧ ColsOK cfg o :=
+  ⟨rep_of_sorted o.pending ((anyReach_flag cfg s hs) h o ho).sorted, anyReach_cols cfg s hs h o ho⟩
+
+theorem C05_translated_cols_step (cfg : Cfg) (s : State) (op : Op) (hc : AllCols cfg s) : AllCols cfg (step cfg s op).1 :=
+  cols_step cfg s op hc
+
+/-! The same theorems for every REACHABLE state: no side condition beyond the configuration (`ncols`, `i.Ok`,
+`cacheValues`), the inputs, and the choice of the dict `cv` (any `cv` with `Rep cv o.pending`; `o.pending` itself
+is one by `C05_translated_rep_reachable`). -/
+
+open SqlObjVerif.PyMain in
+theorem C05_translated_expire_reachable (cfg : Cfg) (i : Iface) (s : State) (hs : AnyReach cfg s) (h : Hnd) (o : Inst)
+    (cv : Pend) (fail : Bool) (ho : s.objs h = some o) :
+    absUnit o.cls o.id h (expireX o.cls o.id (cfg.ncols o.cls) h (absW cfg i s o cv fail)) = some (opExpire s h) :=
+  expireX_eq cfg i s h o cv fail ho (anyReach_cols cfg s hs h o ho).attrs
+
+open SqlObjVerif.PyMain in
+theorem C05_translated_sync_reachable (cfg : Cfg) (i : Iface) (s : State) (hs : AnyReach cfg s) (h : Hnd) (o : Inst)
+    (cv : Pend) (fail : Bool) (ho : s.objs h = some o) (hrep : Rep cv o.pending)
+    (hn : cfg.ncols o.cls ≠ 0) (hi : i.Ok cfg o.cls) :
+    absUnit o.cls o.id h (syncX o.cls o.id (cfg.ncols o.cls) h (absW cfg i s o cv fail)) = some (opSync cfg s h fail) :=
+  syncX_eq cfg i s h o cv fail ho hrep (anyReach_cols cfg s hs h o ho).pend (anyReach_cols cfg s hs h o ho).attrs hn hi
+
+open SqlObjVerif.PyMain in
+theorem C05_translated_selectInit_reachable (cfg : Cfg) (i : Iface) (s : State) (hs : AnyReach cfg s) (h : Hnd)
+    (o : Inst) (cv : Pend) (fail : Bool) (row : Row) (ho : s.objs h = some o) (hi : i.Ok cfg o.cls) :
+    selectInitX o.cls o.id (cfg.ncols o.cls) h (absW cfg i s o cv fail) (.row ((List.range (cfg.ncols o.cls)).map row)) =
+      .ret (absW cfg i s { o with cached := loadRow (cfg.dec o.cls) (cfg.ncols o.cls) row } cv fail) .none :=
+  selectInitX_eq cfg i s h o cv fail row (anyReach_cols cfg s hs h o ho).attrs hi
+
+open SqlObjVerif.PyMain in
+theorem C05_translated_loadValue_reachable (cfg : Cfg) (i : Iface) (s : State) (hs : AnyReach cfg s) (h : Hnd)
+    (o : Inst) (cv : Pend) (fail : Bool) (c : Col) (ho : s.objs h = some o) (hrep : Rep cv o.pending)
+    (hc : c < cfg.ncols o.cls) (hi : i.Ok cfg o.cls) (hcache : cfg.cacheValues o.cls = true) :
+    absVal o.cls o.id h (loadValueX o.cls o.id (cfg.ncols o.cls) h (absW cfg i s o cv fail) c) = some (opRead cfg s h c) :=
+  loadValueX_eq cfg i s h o cv fail c ho hrep (anyReach_cols cfg s hs h o ho).attrs hc hi hcache
+
+/-- non-vacuity of the reachable-state theorems: a reachable state with a held instance -/
+example : ∃ s h, AnyReach exCfg s ∧ (s.objs h).isSome = true :=
+  ⟨_, 0, anyReach_run exCfg init [.create 0 1 1 [(0, .ok (some 1))]] AnyReach.init, by decide⟩
 
 /-- a dict in another insertion order stands for the same pending values -/
 example : Rep [(2, some 5), (0, none)] [(0, none), (2, some 5)] := ⟨by decide, by decide⟩
